@@ -20,22 +20,22 @@ from llsym.poly import Poly, ZERO
 from llsym.lsym import Ptr, Cond, PanicReached
 from checks import c01, c02, c04, c12
 
-def dispatch_pair(rep, modpath, name, call, tier):
-    """same entry point, AVX2 vs serial implementation selected at run time: identical linear forms"""
+def dispatch_pair(rep, modpath, name, call, tier, cfg="simd", vec="avx2"):
+    """same entry point, vector vs serial implementation selected at run time: identical linear forms"""
     t0 = time.time()
-    rec = dict(harness="simd/dispatch-independence: " + name, config="simd", function=name, goals=[], bounds="all digit vectors of the recoding (all scalars); symbolic points")
+    rec = dict(harness="%s/dispatch-independence: %s" % (cfg, name), config=cfg, function=name, goals=[], bounds="all digit vectors of the recoding (all scalars); symbolic points")
     try:
         res = {}
-        for which in ("avx2", "serial"):
+        for which in (vec, "serial"):
             it = GSym(module(modpath)); c04.force_backend(it, which)
             res[which] = call(it)
-            vec = [c for c in it.calls if "vector" in c and "scalar_mul" in c]
-            ok = bool(vec) if which == "avx2" else not vec
-            rec["goals"].append(dict(goal="forcing %s executes %s" % (which, "the vector implementation" if which == "avx2" else "no vector code"), verdict="unsat" if ok else "sat", solver_s=0.0, cases=1, solver_calls=0, kind="structural"))
+            vecf = [c for c in it.calls if "vector" in c and "scalar_mul" in c]
+            ok = bool(vecf) if which != "serial" else not vecf
+            rec["goals"].append(dict(goal="forcing %s executes %s" % (which, "the vector implementation" if which != "serial" else "no vector code"), verdict="unsat" if ok else "sat", solver_s=0.0, cases=1, solver_calls=0, kind="structural"))
             if not ok: rec["status"] = "inconclusive"; rec["why"] = "dispatch could not be forced to " + which
-        d = res["avx2"] - res["serial"]
+        d = res[vec] - res["serial"]
         same = d.is_zero()
-        rec["goals"].append(dict(goal="result(AVX2) - result(serial) is the zero linear form", verdict="unsat" if same else "sat", solver_s=0.0, cases=1, solver_calls=0, kind="polynomial identity over the digit variables"))
+        rec["goals"].append(dict(goal="result(%s) - result(serial) is the zero linear form" % vec, verdict="unsat" if same else "sat", solver_s=0.0, cases=1, solver_calls=0, kind="polynomial identity over the digit variables"))
         if not same:
             rec["status"] = "violation"; rec["why"] = "the two implementations compute different functions of the digits: difference " + str(d)[:300]
         rec.setdefault("status", "ok")
@@ -46,7 +46,7 @@ def dispatch_pair(rep, modpath, name, call, tier):
     except PanicReached as e:
         rec["status"] = "violation"; rec["why"] = "panic reached: " + str(e)
     rec["wall_s"] = round(time.time() - t0, 3)
-    rep.add(**rec); rep.functions.add(name); rep.configs.add("simd")
+    rep.add(**rec); rep.functions.add(name); rep.configs.add(cfg)
 
 def run(tier, seed):
     rep = Report("C05")
@@ -76,6 +76,13 @@ def run(tier, seed):
         tasks.append(lambda n=n: dispatch_pair(rep, sp, "EdwardsPoint::multiscalar_mul n=%d (Straus)" % n, mk_ms(n), tier))
     tasks += c04.vartime_harnesses(rep, "simd", sp, tier, backend="avx2")
     tasks += c04.vartime_harnesses(rep, "simd", sp, tier, backend="serial")
+    # the same for the IFMA implementation in the unstable_avx512 build (nightly toolchain)
+    try:
+        a5 = build.ir("avx512", "O0")
+        tasks.append(lambda: dispatch_pair(rep, a5, "EdwardsPoint * Scalar (variable_base)", c_mul, tier, cfg="avx512", vec="avx512"))
+        tasks.append(lambda: dispatch_pair(rep, a5, "EdwardsPoint::multiscalar_mul n=2 (Straus)", mk_ms(2), tier, cfg="avx512", vec="avx512"))
+        tasks += c04.vartime_harnesses(rep, "avx512", a5, tier, backend="avx512")
+    except build.BuildError as e: rep.add(harness="avx512/build", config="avx512", function="build", status="inconclusive", why=str(e)[-400:], goals=[], wall_s=0)
     # (3) precomputed-tables on / off (serial64 and the 32-bit build)
     for cfg in (("serial64",) if tier == "quick" else ("serial64", "serial32")):
         for feats, label in ((None, "precomputed-tables on"), (["alloc", "zeroize"], "precomputed-tables off")):
